@@ -221,7 +221,10 @@ EXTERNALS: dict[str, int] = {}   # library functions that were called but not in
 TRUSTED_PURE = {"simaple.spec._math.evaluate_expression",
                 # lazily loaded process-wide table (YAML): returns the shared table object; its one-time initialisation
                 # is the only write, to the module global, and is part of C02's inventory of shared state
-                "simaple.gear.blueprint.potential_blueprint._global_load_kms_potential_table"}
+                "simaple.gear.blueprint.potential_blueprint._global_load_kms_potential_table",
+                # the lazily created process-wide spec repository (a `global` statement): returns the shared repository
+                # object; its one-time creation is the only write and is part of C02's inventory of shared state
+                "simaple.data.jobs.builtin.get_kms_jobs_repository"}
 # subclasses defined here are not considered by the class-hierarchy analysis: the gear-set builder of the baseline
 # environment provider has its own patches (GearIdPatch fills a lazy name index of its GearRepository); they are not
 # part of the job / skill build path that the properties anchor
@@ -2421,8 +2424,51 @@ PURE_TARGETS = [
 ]
 
 
+# module-level functions a property says must not alter what they are given nor keep anything between calls
+# (property, module, function): the skill-set build path of C16
+PURE_FUNCTION_TARGETS = [
+    ("C16", "simaple.data.jobs.builtin", "build_skills"),
+    ("C16", "simaple.data.jobs.builtin", "_exclude_hexa_skill"),
+    ("C16", "simaple.container.simulation", "get_skill_components"),
+]
+
+
+def lower_function_target(mod: str, name: str):
+    fn = getattr(importlib.import_module(mod), name)
+    prog = Program()
+    lw = Lowerer(prog)
+    lw.proc_names = set(PATCH_PROCEDURE_NAMES)
+    sig_fn = inspect.unwrap(fn)
+    hints = typing.get_type_hints(sig_fn)
+    args = []
+    for p_ in inspect.signature(sig_fn).parameters.values():
+        if p_.kind in (inspect.Parameter.VAR_KEYWORD, inspect.Parameter.VAR_POSITIONAL):
+            continue
+        v = prog.newvar(p_.name)
+        ty = ty_of_annotation(hints.get(p_.name, p_.annotation), sig_fn.__globals__)
+        if ty == PRIM:
+            lw.emit(("havoc", v))
+        args.append(AV(var=v, ty=ty))
+    lw.call_function(fn, args, {}, self_cls=None)
+    ir = seq(lw.blocks[0])
+    return finish_entry(lw, prog, ir, None)
+
+
 def lower_pure_targets():
     entries = []
+    for prop, mod, fname in PURE_FUNCTION_TARGETS:
+        ent = {"prop": prop, "cls": mod.rsplit(".", 1)[1], "method": fname, "fresh": False}
+        try:
+            if not hasattr(importlib.import_module(mod), fname):
+                continue            # an optional target that this tree does not have
+            centry, cbody, taint, nv, _me, nprocs = lower_function_target(mod, fname)
+            ent.update({"prog": centry, "body": cbody, "taint": taint, "nvars": nv, "result": None, "error": None,
+                        "procedures": nprocs})
+        except Unsupported as ex:
+            ent.update({"prog": None, "error": str(ex)})
+        except RecursionError:
+            ent.update({"prog": None, "error": "recursion limit"})
+        entries.append(ent)
     for prop, mod, cn, meth, fresh in PURE_TARGETS:
         ent = {"prop": prop, "cls": cn, "method": meth, "fresh": fresh}
         try:
